@@ -270,8 +270,8 @@ func c16NewRun(c *kit.Case, cfg c16Cfg, label string) (*c16Run, error) {
 	}
 	r.pageMedia = [3]*pdf.Rectangle{
 		{LLx: 0, LLy: 0, URx: 612, URy: 792},
-		{LLx: 0, LLy: 0, URx: 595, URy: 842},
-		{LLx: -10, LLy: -10, URx: 700, URy: 900},
+		{LLx: 0, LLy: 0, URx: 595.28, URy: 841.89},
+		{LLx: 0, LLy: 0, URx: 595.276, URy: 841.89}, // differs from the previous one in the third decimal
 	}
 	r.dictCrop = [3]pdf.Object{
 		pdf.Array{I(10), I(10), I(500), I(700)},
@@ -280,7 +280,7 @@ func c16NewRun(c *kit.Case, cfg c16Cfg, label string) (*c16Run, error) {
 	}
 	r.pageCrop = [3]*pdf.Rectangle{
 		{LLx: 10, LLy: 10, URx: 500, URy: 700},
-		{LLx: 20, LLy: 20, URx: 400, URy: 600},
+		{LLx: 10, LLy: 10, URx: 500.004, URy: 700}, // close to the first one
 		{LLx: 0, LLy: 0, URx: 100, URy: 100},
 	}
 	r.dictRes = [3]pdf.Object{
